@@ -105,6 +105,23 @@ def run(ctx):
         elif not close and "interp1d" not in cname:
             bad("fitting noise-free production generated from the same curve does not recover M and tau", dict(**inp, window_end_over_tau=end / tau, samples=len(tt), bounds=kind),
                 dict(M=float(fit.M_), tau=float(fit.tau_)))
+        # ---------------- the same history held as a numpy masked array with a few entries masked (a gauge file read with usemask=True; the
+        # numbers under the mask are still the production): fitted like the plain array of the same numbers
+        if k < (6 if ctx.quick else 60) and "interp1d" not in cname:
+            msk = np.zeros(len(y), bool)
+            msk[[1, len(y) // 2]] = True
+            fm_, fp_ = ForecasterOnePhase(rf), ForecasterOnePhase(rf)
+            ev += 1
+            try:
+                with warnings.catch_warnings():
+                    warnings.simplefilter("ignore")
+                    fp_.fit(tt, y.copy())
+                    fm_.fit(tt, np.ma.masked_array(y.copy(), mask=msk))
+                if not (dom.relclose(fm_.M_, fp_.M_, 1e-6) and dom.relclose(fm_.tau_, fp_.tau_, 1e-6)):
+                    bad("a production history given as a masked array is fitted differently from the plain array of the same numbers", dict(**inp, samples=len(tt), masked_entries=[1, len(y) // 2]),
+                        dict(M_masked=float(fm_.M_), tau_masked=float(fm_.tau_), M_plain=float(fp_.M_), tau_plain=float(fp_.tau_)))
+            except Exception as e:  # noqa: BLE001
+                bad("fit fails on a production history given as a masked array", dict(**inp, samples=len(tt)), repr(e)[:200])
         # ---------------- explicit arguments always win over fitted attributes, at the ends of the admissible range too
         # (M = 0 is the lower end of the default bounds: the forecast is identically zero)
         M2, tau2 = float(M * rng.uniform(0.3, 3)), float(tau * rng.uniform(0.3, 3))
